@@ -9,6 +9,7 @@ THEOREMS = ["OQuPyVerif.Props.C01.commuting_collapse", "OQuPyVerif.Props.C01.pro
             "OQuPyVerif.Props.C01.decoherence_factor", "OQuPyVerif.Props.C01.full_memory_sum",
             "OQuPyVerif.Props.C01.cutoff_row_sum", "OQuPyVerif.Props.C01.infl_entry_is_model",
             "OQuPyVerif.Props.C01.infl_entry_diag_is_model", "OQuPyVerif.Props.C01.influence_args",
+            "OQuPyVerif.Props.C01.tcut_general", "OQuPyVerif.Props.C01.dkmax_tcut",
             "OQuPyVerif.EtaCells.tiling", "OQuPyVerif.EtaCells.row_sum",
             "OQuPyVerif.EtaCells.row_sum_rect", "OQuPyVerif.PathSum.pathState_diag"]
 BIG = 2.0 ** 1000      # stands for an infinite add_correlation_time on the Lean side
@@ -61,8 +62,34 @@ def corr_influence_args(res, tier, rng):
                                                     " ".join(rat(x) for x in o)))
             expect.append(infl)
             meta.append(("entries", dk, d))
+    # TempoParameters(tcut=...): the real conversion to dkmax vs the generated expression
+    from decimal import Decimal
+    ntc = 120 if tier == "quick" else 1500
+    for _ in range(ntc):
+        d_l = rng.choice(["0.04", "0.02", "0.3", "0.1", "0.05", "0.07", "0.025", "0.001", "0.35"])
+        k = rng.randrange(0, 120)
+        kind = rng.choice(["literal", "literal", "computed", "offgrid"])
+        dt = float(d_l)
+        if kind == "literal":
+            tcut = float(Decimal(d_l) * k)
+        elif kind == "computed":
+            tcut = k * dt
+        else:
+            tcut = (k + rng.uniform(-0.45, 0.45)) * dt
+            tcut = max(tcut, 0.0)
+        par = oqupy.TempoParameters(dt=dt, epsrel=1e-6, tcut=tcut)
+        lines.append("tcut %s %s" % (rat(tcut), rat(dt)))
+        expect.append(str(par.dkmax))
+        meta.append(("tcut", kind, tcut, dt))
+        res.count("tcut:" + kind)
     out = fw.run_driver(PID, lines)
     for l, e, g, m in zip(lines, expect, out, meta):
+        if m[0] == "tcut":
+            res.case(l, True, None)
+            if e != g:
+                res.disagree("TempoParameters(tcut=%r, dt=%r).dkmax differs from the generated "
+                             "expression" % (m[2], m[3]), {"line": l, "impl": e, "model": g})
+            continue
         if m[0] == "args":
             res.case(l, True, {"op": l, "impl": e, "model": g})
             if e != g:
@@ -229,6 +256,16 @@ def search(res):
             bad = run_C12.oracle_modes(label, d, modes, temp, shape, t1, t2)
             if bad is not None:
                 res.fail("cells:" + run_C12.modes_key(label, shape), bad)
+    # (0a) tcut written as the literal of k*dt means k memory steps
+    from decimal import Decimal
+    for d_l in ("0.04", "0.02", "0.3", "0.1", "0.07", "0.35"):
+        for k in range(1, 200):
+            tcut = float(Decimal(d_l) * k)
+            got = oqupy.TempoParameters(dt=float(d_l), epsrel=1e-6, tcut=tcut).dkmax
+            if got != k:
+                res.fail("tcut:dt=%s tcut=%r" % (d_l, tcut),
+                         {"dt": float(d_l), "tcut": tcut, "expected_dkmax": k, "got_dkmax": got})
+                break
     # (0b) memory settings have their documented meaning: with dkmax*dt + add_correlation_time
     #      covering the whole run, a cut-off run must equal the full-memory run
     for i in range(4):
